@@ -2,6 +2,7 @@ package checks
 
 import (
 	"fmt"
+	"sort"
 	"strings"
 	"testing"
 
@@ -13,7 +14,7 @@ import (
 
 // C09 — history navigation and search are faithful and non-destructive.
 
-const c09Rule = "history contents from a pool (empty, one entry, duplicates, entries that are prefixes of each other, multi-line, multi-byte, padded, entries and search texts with regular-expression metacharacters) x an in-progress buffer (possibly empty, cursor possibly moved back) x 5-40 steps from {previous/next-history, beginning/end-of-history, up/down-line-or-history, history-search-backward/forward, history-substring-search-backward/forward, beginning/end-of-buffer-or-history} and incremental search sessions (C-r / C-s, pattern keys, repeats, ended by CR, ESC or C-g), biased to overshoot both ends; one command per read; oracle: (a) walk index model run as a SET of possible positions (end-of-history may mean slot 0 or 1; *-line-or-history and *-buffer-or-history may move inside the buffer instead): the buffer shown must equal slot[p] for a possible p; (b) after a prefix / substring search the buffer is the in-progress text or a stored entry that has / contains the search string (text before the cursor of the buffer shown when pressed, or of the in-progress line); after an incremental search the buffer is the in-progress text or an entry matching the typed pattern (case-insensitively when it has no upper-case letter); (c) no panic and no 'history error' hint at either end; (d) afterwards the source holds exactly its prior entries (plus the accepted line per C08); non-trivial = walks past an end, or returns to slot 0 with a non-empty in-progress buffer after leaving it, or a search with >= 2 matching entries; distinct = hash of the case"
+const c09Rule = "history contents from a pool (empty, one entry, duplicates, entries that are prefixes of each other, multi-line, multi-byte, padded, entries and search texts with regular-expression metacharacters) x an in-progress buffer (possibly empty, cursor possibly moved back) x 5-40 steps from {previous/next-history, beginning/end-of-history, up/down-line-or-history, history-search-backward/forward, history-substring-search-backward/forward, beginning/end-of-buffer-or-history} and incremental search sessions (C-r / C-s, pattern keys, repeats, ended by CR, ESC or C-g), biased to overshoot both ends, and edits (a typed character) of whatever entry or line is shown; one command per read; oracle: (a) walk index model run as a SET of possible positions (end-of-history may mean slot 0 or 1; *-line-or-history and *-buffer-or-history may move inside the buffer instead): the buffer shown must equal slot[p] for a possible p, where a slot edited while shown may later show its stored text or any text seen on it after an edit (search validity (b) is judged up to the first edit); (b) after a prefix / substring search the buffer is the in-progress text or a stored entry that has / contains the search string (text before the cursor of the buffer shown when pressed, or of the in-progress line); after an incremental search the buffer is the in-progress text or an entry matching the typed pattern (case-insensitively when it has no upper-case letter); (c) no panic and no 'history error' hint at either end; (d) afterwards the source holds exactly its prior entries (plus the accepted line per C08); non-trivial = walks past an end, or returns to slot 0 with a non-empty in-progress buffer after leaving it, or a search with >= 2 matching entries; distinct = hash of the case"
 
 type C09Case struct {
 	Mode  string   `json:"mode"`
@@ -55,7 +56,10 @@ func genC09(t *rapid.T) *C09Case {
 	n := rapid.IntRange(5, 40).Draw(t, "nsteps")
 
 	for i := 0; i < n; i++ {
-		switch k := rapid.IntRange(0, 9).Draw(t, "opkind"); {
+		switch k := rapid.IntRange(0, 10).Draw(t, "opkind"); {
+		case k == 10:
+			// edit whatever is shown (an entry being visited, or the line being typed)
+			c.Steps = append(c.Steps, C09Op{Cmd: "edit", Keys: []string{rapid.SampledFrom([]string{"Z", "q", "日", " "}).Draw(t, "editkey")}})
 		case k < 6:
 			// runs of the same walk command overshoot the ends
 			cmd := rapid.SampledFrom(c09Walk).Draw(t, "walk")
@@ -116,6 +120,14 @@ func runC09(h *Harness, child *rig.Child, c *C09Case) (*Failure, bool) {
 		return c.Hist[n-p]
 	}
 
+	// Texts an edit left on a slot while it was shown there: the library keeps
+	// the edited text of a visited entry for the rest of the call (the stored
+	// entry itself must not change: clause (d)), so a later visit may show the
+	// stored text or any text seen on that slot after an edit.
+	versions := map[int]map[string]bool{}
+	slotIs := func(p int, line string) bool { return slot(p) == line || versions[p][line] }
+	edited := false
+
 	P := map[int]bool{0: true}
 	modelOn := true
 	nontrivial := false
@@ -143,6 +155,40 @@ func runC09(h *Harness, child *rig.Child, c *C09Case) (*Failure, bool) {
 		if P[0] && before.Line == c.Text && modelOn {
 			inProgressBeforeCursor = string([]rune(c.Text)[:min(before.Pos, len([]rune(c.Text)))])
 			ipPrefixes[inProgressBeforeCursor] = true
+		}
+
+		if op.Cmd == "edit" {
+			// a typed character edits the buffer only in an inserting keymap (an
+			// incremental search closed with ESC leaves vi in command mode)
+			if !modelOn || before.Local != "" || before.Kind != "main" || (before.Main != "emacs" && before.Main != "vi-insert") {
+				continue
+			}
+
+			ev := d.send(K(op.Keys[0]).dec())
+			if d.fail != nil {
+				d.fail.Msg = fmt.Sprintf("after %v: %s", done, d.fail.Msg)
+				return d.fail, true
+			}
+
+			if ev == nil {
+				return nil, nontrivial
+			}
+
+			edited = true
+
+			for p := range P {
+				if versions[p] == nil {
+					versions[p] = map[string]bool{}
+				}
+
+				versions[p][ev.Line] = true
+
+				if p > 0 {
+					nontrivial = true
+				}
+			}
+
+			continue
 		}
 
 		if op.Cmd == "isearch" {
@@ -184,7 +230,7 @@ func runC09(h *Harness, child *rig.Child, c *C09Case) (*Failure, bool) {
 				}
 
 				// CR may also cancel the search and return the buffer it started from
-				if f := c09Matches(c, d.st.Ev.Line, pattern, "isearch"); f != nil && d.st.Ev.Line != before.Line {
+				if f := c09Matches(c, d.st.Ev.Line, pattern, "isearch"); f != nil && d.st.Ev.Line != before.Line && !edited {
 					f.Msg = fmt.Sprintf("after %v: incremental search for %q accepted with CR returned %q: %s", done, pattern, d.st.Ev.Line, f.Msg)
 					return f, true
 				}
@@ -210,7 +256,7 @@ func runC09(h *Harness, child *rig.Child, c *C09Case) (*Failure, bool) {
 			}
 
 			// a cancelled or failed search may also restore the buffer it started from
-			if f := c09Matches(c, ev.Line, pattern, "isearch"); f != nil && ev.Line != before.Line {
+			if f := c09Matches(c, ev.Line, pattern, "isearch"); f != nil && ev.Line != before.Line && !edited {
 				f.Msg = fmt.Sprintf("after %v: incremental search for %q started from buffer %q left the buffer %q: %s", done, pattern, before.Line, ev.Line, f.Msg)
 
 				if before.Line == "" {
@@ -223,7 +269,7 @@ func runC09(h *Harness, child *rig.Child, c *C09Case) (*Failure, bool) {
 			P = map[int]bool{}
 
 			for p := 0; p <= n; p++ {
-				if slot(p) == ev.Line {
+				if slotIs(p, ev.Line) {
 					P[p] = true
 				}
 			}
@@ -292,6 +338,12 @@ func runC09(h *Harness, child *rig.Child, c *C09Case) (*Failure, bool) {
 				}
 			}
 
+			// after an edit "the in-progress text" and "the entries" have versions
+			// the statement does not rank: validity is judged before the first edit
+			if !ok && edited {
+				ok = true
+			}
+
 			if !ok {
 				return failf("search-validity", "c09:search-invalid:"+op.Cmd, "after %v: %s from buffer %q (cursor %d, in-progress %q) put %q in the buffer, which is neither the in-progress text nor an entry matching %q / %q; history %q",
 					done, op.Cmd, before.Line, before.Pos, c.Text, ev.Line, shownBefore, inProgressBeforeCursor, c.Hist), true
@@ -304,9 +356,13 @@ func runC09(h *Harness, child *rig.Child, c *C09Case) (*Failure, bool) {
 			P = map[int]bool{}
 
 			for p := 0; p <= n; p++ {
-				if slot(p) == ev.Line {
+				if slotIs(p, ev.Line) {
 					P[p] = true
 				}
+			}
+
+			if len(P) == 0 {
+				modelOn = false
 			}
 
 			continue
@@ -392,7 +448,7 @@ func runC09(h *Harness, child *rig.Child, c *C09Case) (*Failure, bool) {
 		filtered := map[int]bool{}
 
 		for p := range next {
-			if slot(p) == ev.Line {
+			if slotIs(p, ev.Line) {
 				filtered[p] = true
 			}
 		}
@@ -400,7 +456,7 @@ func runC09(h *Harness, child *rig.Child, c *C09Case) (*Failure, bool) {
 		if len(filtered) == 0 {
 			want := []string{}
 			for p := range next {
-				want = append(want, fmt.Sprintf("slot %d = %q", p, slot(p)))
+				want = append(want, fmt.Sprintf("slot %d = %q %v", p, slot(p), keysStr(versions[p])))
 			}
 
 			return failf("walk-model", "c09:walk:"+op.Cmd, "after %v: %s shows %q; by the walk model (positions before: %v) it must show one of: %s; in-progress %q, history %q",
@@ -435,6 +491,17 @@ func runC09(h *Harness, child *rig.Child, c *C09Case) (*Failure, bool) {
 	}
 
 	return c09Sources(c, d.st.Ev), nontrivial
+}
+
+func keysStr(m map[string]bool) []string {
+	out := []string{}
+	for k := range m {
+		out = append(out, k)
+	}
+
+	sort.Strings(out)
+
+	return out
 }
 
 func keysInt(m map[int]bool) []int {
